@@ -162,14 +162,33 @@ type spelling struct {
 	Signer   uint64 // signer name in the RRSIG
 	KeyOwner uint64 // owner of the DNSKEY
 	Rdata    uint64 // every domain name in the RDATA of the records
+	// round 10: HOW a selected octet is written (see spellNameStyle). 0: letters as \DDD (round 7);
+	// styleBackslashLetter: letters with a backslash in front (`w\ww`); styleAnyDDD: every selected
+	// octet, letter or not, as \DDD (`w\045w` for "w-w", `\049` for "1")
+	Style int `json:",omitempty"`
 }
 
-func (s spelling) any() bool { return s != spelling{} }
+const (
+	styleLetterDDD       = 0
+	styleBackslashLetter = 1
+	styleAnyDDD          = 2
+)
+
+func (s spelling) any() bool { return s.Owner|s.SigOwner|s.Signer|s.KeyOwner|s.Rdata != 0 }
+
+// name is the presentation form of n at a site with the given mask, in the style of the case.
+func (s spelling) name(n wm.Name, mask uint64) string { return spellNameStyle(n, mask, s.Style) }
 
 func isLetter(b byte) bool { return b >= 'a' && b <= 'z' || b >= 'A' && b <= 'Z' }
 
 // spellName is the presentation form of n with the letters selected by mask written as \DDD.
-func spellName(n wm.Name, mask uint64) string {
+func spellName(n wm.Name, mask uint64) string { return spellNameStyle(n, mask, styleLetterDDD) }
+
+// spellNameStyle: the octets selected by mask are written as \DDD if they are letters (style 0), as
+// a backslash and the letter itself (styleBackslashLetter: RFC 1035 5.1 "\X where X is any character
+// other than a digit"), or as \DDD whatever they are (styleAnyDDD). Every spelling denotes the same
+// octets.
+func spellNameStyle(n wm.Name, mask uint64, style int) string {
 	if mask == 0 || len(n) == 0 {
 		return wm.EscName(n)
 	}
@@ -177,9 +196,14 @@ func spellName(n wm.Name, mask uint64) string {
 	i := 0
 	for _, l := range n {
 		for _, b := range l {
-			if isLetter(b) && mask>>(uint(i)%64)&1 == 1 {
+			sel := mask>>(uint(i)%64)&1 == 1
+			switch {
+			case sel && style == styleBackslashLetter && isLetter(b):
+				sb.WriteByte('\\')
+				sb.WriteByte(b)
+			case sel && (style == styleAnyDDD || style == styleLetterDDD && isLetter(b)):
 				fmt.Fprintf(&sb, "\\%03d", b)
-			} else {
+			default:
 				sb.WriteString(wm.EscLabel([]byte{b}))
 			}
 			i++
@@ -205,15 +229,15 @@ func spelledLetters(n wm.Name, mask uint64, upper bool) bool {
 
 // respellRdata rewrites every domain name field of rr (struct tags dns:"domain-name" /
 // dns:"cdomain-name", strings and string lists) with spellName.
-func respellRdata(rr dns.RR, mask uint64) {
+func respellRdata(rr dns.RR, mask uint64, style int) {
 	v := reflect.ValueOf(rr)
 	if v.Kind() != reflect.Pointer || v.Elem().Kind() != reflect.Struct {
 		return
 	}
-	respellStruct(v.Elem(), mask)
+	respellStruct(v.Elem(), mask, style)
 }
 
-func respellStruct(v reflect.Value, mask uint64) {
+func respellStruct(v reflect.Value, mask uint64, style int) {
 	t := v.Type()
 	for i := 0; i < t.NumField(); i++ {
 		f, fv := t.Field(i), v.Field(i)
@@ -221,7 +245,7 @@ func respellStruct(v reflect.Value, mask uint64) {
 			continue
 		}
 		if f.Anonymous && fv.Kind() == reflect.Struct {
-			respellStruct(fv, mask)
+			respellStruct(fv, mask, style)
 			continue
 		}
 		if tag := f.Tag.Get("dns"); tag != "domain-name" && tag != "cdomain-name" {
@@ -229,7 +253,7 @@ func respellStruct(v reflect.Value, mask uint64) {
 		}
 		re := func(s string) string {
 			if n, _, err := wm.UnescName(s); err == nil && len(n) > 0 {
-				return spellName(n, mask)
+				return spellNameStyle(n, mask, style)
 			}
 			return s
 		}
@@ -413,10 +437,10 @@ func (w world) libSet() ([]dns.RR, error) {
 			return nil, err
 		}
 		if w.Spell.Owner != 0 {
-			rr.Header().Name = spellName(r.Name, w.Spell.Owner)
+			rr.Header().Name = w.Spell.name(r.Name, w.Spell.Owner)
 		}
 		if w.Spell.Rdata != 0 {
-			respellRdata(rr, w.Spell.Rdata)
+			respellRdata(rr, w.Spell.Rdata, w.Spell.Style)
 		}
 		out = append(out, rr)
 	}
@@ -432,10 +456,10 @@ func (w world) libKey() *dns.DNSKEY {
 		return k
 	}
 	if w.KeyText != nil {
-		return &dns.DNSKEY{Hdr: dns.RR_Header{Name: spellName(w.KeyOwner, w.Spell.KeyOwner), Rrtype: dns.TypeDNSKEY, Class: w.KeyClass, Ttl: 3600},
+		return &dns.DNSKEY{Hdr: dns.RR_Header{Name: w.Spell.name(w.KeyOwner, w.Spell.KeyOwner), Rrtype: dns.TypeDNSKEY, Class: w.KeyClass, Ttl: 3600},
 			Flags: w.KeyFlags, Protocol: w.KeyProto, Algorithm: w.KeyAlg, PublicKey: *w.KeyText}
 	}
-	return &dns.DNSKEY{Hdr: dns.RR_Header{Name: spellName(w.KeyOwner, w.Spell.KeyOwner), Rrtype: dns.TypeDNSKEY, Class: w.KeyClass, Ttl: 3600},
+	return &dns.DNSKEY{Hdr: dns.RR_Header{Name: w.Spell.name(w.KeyOwner, w.Spell.KeyOwner), Rrtype: dns.TypeDNSKEY, Class: w.KeyClass, Ttl: 3600},
 		Flags: w.KeyFlags, Protocol: w.KeyProto, Algorithm: w.KeyAlg, PublicKey: base64.StdEncoding.EncodeToString(w.KeyOctets)}
 }
 
@@ -459,9 +483,9 @@ func (w world) libSig() *dns.RRSIG {
 		r.Signature = *w.SigText
 		return r
 	}
-	return &dns.RRSIG{Hdr: dns.RR_Header{Name: spellName(w.SigOwner, w.Spell.SigOwner), Rrtype: dns.TypeRRSIG, Class: w.SigClass, Ttl: w.SigTTL},
+	return &dns.RRSIG{Hdr: dns.RR_Header{Name: w.Spell.name(w.SigOwner, w.Spell.SigOwner), Rrtype: dns.TypeRRSIG, Class: w.SigClass, Ttl: w.SigTTL},
 		TypeCovered: w.F.TypeCovered, Algorithm: w.F.Alg, Labels: w.F.Labels, OrigTtl: w.F.OrigTTL, Expiration: w.F.Expiration,
-		Inception: w.F.Inception, KeyTag: w.F.KeyTag, SignerName: spellName(w.F.Signer, w.Spell.Signer), Signature: base64.StdEncoding.EncodeToString(w.Signature)}
+		Inception: w.F.Inception, KeyTag: w.F.KeyTag, SignerName: w.Spell.name(w.F.Signer, w.Spell.Signer), Signature: base64.StdEncoding.EncodeToString(w.Signature)}
 }
 
 // libVerify runs RRSIG.Verify on library values built from w. A world whose records cannot even be
